@@ -35,19 +35,32 @@ void printSortedEvents(std::istream& input, std::ostream& output, const std::str
   std::vector<Pair> buffer;
   std::ostringstream stream;
 
-  // buffer every event in input
-  while (const binlog::Event* event = eventStream.nextEvent(entryStream))
+  // sort and print the the buffer
+  const auto printBuffer = [&buffer, &output]()
   {
-    stream.str({}); // reset stream
-    pp.printEvent(stream, *event, eventStream.writerProp(), eventStream.clockSync());
-    buffer.emplace_back(event->clockValue, stream.str());
+    const auto cmpClock = [](const Pair& p1, const Pair& p2) { return p1.first < p2.first; };
+    std::stable_sort(buffer.begin(), buffer.end(), cmpClock);
+    for (const Pair& p : buffer)
+    {
+      output << p.second;
+    }
+  };
+
+  // buffer every event in input
+  try
+  {
+    while (const binlog::Event* event = eventStream.nextEvent(entryStream))
+    {
+      stream.str({}); // reset stream
+      pp.printEvent(stream, *event, eventStream.writerProp(), eventStream.clockSync());
+      buffer.emplace_back(event->clockValue, stream.str());
+    }
+  }
+  catch (...)
+  {
+    printBuffer(); // do not lose the events read before the error
+    throw;
   }
 
-  // sort and print the the buffer
-  const auto cmpClock = [](const Pair& p1, const Pair& p2) { return p1.first < p2.first; };
-  std::stable_sort(buffer.begin(), buffer.end(), cmpClock);
-  for (const Pair& p : buffer)
-  {
-    output << p.second;
-  }
+  printBuffer();
 }
